@@ -479,7 +479,17 @@ func (vc *VC) fieldStep(a TV, i int, env *Env) TV {
 		if isStruct(ft) || isArray(ft) {
 			return TV{T: types.NewPointer(ft), S: sx("lfld", a.S, fmt.Sprint(i))}
 		}
-		return TV{T: ft, S: vc.envHeapRead(env, fieldKey(u.Elem(), i), ft, a.S)}
+		key := fieldKey(u.Elem(), i)
+		cur := vc.envHeapRead(env, key, ft, a.S)
+		// a field written only during construction: objects that existed at entry still hold the entry value
+		if env.specHeap == nil && vc.entrySt != nil && env.st != vc.entrySt && vc.prog.fieldImmutable(key) {
+			entry := vc.heapRead(vc.entrySt, key, ft, a.S)
+			if entry != cur {
+				vc.assumeNote("fields written only during construction keep their value (whole-module scan of stores on every run)")
+				return TV{T: ft, S: ite(sx("<", sx("rt", a.S), vc.entrySt.nextId), entry, cur)}
+			}
+		}
+		return TV{T: ft, S: cur}
 	case *types.Struct:
 		return TV{T: u.Field(i).Type(), S: vc.structField(a.T, a.S, i)}
 	}
